@@ -178,6 +178,68 @@ def quoting_section(rng, thorough, rundir, model_run, res, count):
     return len(ops), dis
 
 
+LOC_STRINGS = ["vh:rdst", "vh:r:d", "vh:", "vh:~/x", "vh:sp ace/q'x", "v:rdst", "C:", "C:/x", "é:x", "ab:cd:ef", "./a:b", "a/b:c", "a\\b:c", ":x", "plain", "d/plain",
+               "host.example:dir/sub", "user@host:dir", "vh:dir/with:colon", "ab", "a:", "::", "x/:y", "vh:\\back'slash"]
+
+
+def _unescape_ansi(esc):
+    out, i = "", 0
+    while i < len(esc):
+        if esc[i] == "\\" and i + 1 < len(esc) and esc[i + 1] in "\\'":
+            out += esc[i + 1]; i += 2
+        else:
+            out += esc[i]; i += 1
+    return out
+
+
+def location_section(rng, thorough, rundir, model_run, res, count):
+    """`FileLocation::parse` observed through the real CLI: `sync -r --dry-run SRC X` either lists X over (stand-in)
+    ssh — the stub logs the host and the command, whose `cd $'…'` argument is the remote path — or treats X as a
+    local path (no ssh call; `Scanning SRC and X...`). Compared with the model's `parseLocation`."""
+    strings = list(LOC_STRINGS)
+    alpha = ["a", "b", ":", ":", "/", "\\", ".", "é", "'", " "]
+    for _ in range(200 if thorough else 40):
+        s_ = "".join(rng.pick(alpha) for _ in range(rng.range(1, 6)))
+        if not s_.startswith("-") and "\x00" not in s_:
+            strings.append(s_)
+    ops, impl = [], []
+    for x in strings:
+        with Sandbox("C04") as sb:
+            src = sb.path("s"); os.makedirs(src); open(os.path.join(src, "f"), "wb").write(b"x")
+            log = sb.path("ssh.log")
+            sb.env["SSH_STUB_LOG"] = log
+            rc, out, err = sb.run(["sync", "-r", "--dry-run", src, x], timeout=60, cwd=sb.home)
+            err = err.decode("utf-8", "replace")
+            lines = open(log).read().split("\n")[:-1] if os.path.exists(log) else []
+            if lines:
+                args = [bytes.fromhex(t).decode("utf-8", "replace") for t in lines[0].split(" ")[:-1]]
+                host = args[0] if args else ""
+                cmd = args[1] if len(args) > 1 else ""
+                m = re.match(r"cd \$'(.*)' && find ", cmd, re.S)
+                path = _unescape_ansi(m.group(1)) if m else "?" + cmd[:40]
+                im = f"R {hexs(host)} {hexs(path)}"
+                count("location/remote")
+            else:
+                m = re.search(r"Scanning (.*) and (.*)\.\.\.", err, re.S)
+                im = "L " + (hexs(m.group(2)) if m else "?")
+                count("location/local")
+        ops.append("loc " + hexs(x)); impl.append(im)
+    path = os.path.join(rundir, "loc", "ops.txt")
+    os.makedirs(os.path.dirname(path), exist_ok=True)
+    with open(path, "w") as f:
+        f.write("\n".join(ops) + "\n")
+    model = model_run(path)
+    dis = 0
+    for q, im, mo in zip(ops, impl, model + [None] * (len(ops) - len(model))):
+        if im != mo:
+            dis += 1
+            if len(res.setdefault("disagreements", [])) < 10:
+                res["disagreements"].append({"query": q, "impl": im, "model": mo})
+    if dis:
+        res["broken"].append(f"C04/corr/location: the real CLI and the model of FileLocation::parse disagree on {dis} of {len(ops)} arguments")
+    return len(ops), dis
+
+
 def run(pid, tier, seed, rundir, model_run):
     rng = Rng(seed ^ 0xC04)
     thorough = tier == "thorough"
@@ -362,6 +424,8 @@ def run(pid, tier, seed, rundir, model_run):
     if pid == "C04":
         nq, qdis = quoting_section(rng, thorough, rundir, model_run, res, count)
         ndis += qdis
+        nl, ldis = location_section(rng, thorough, rundir, model_run, res, count)
+        ndis += ldis
     if ndis:
         res["broken"].append(f"{pid}/corr: model and implementation disagree on {ndis} of {len(ops)} runs")
     res.update(evaluations=len(ops), distinct_nontrivial=len({q for q in ops if q.count("=") >= 2}), n_disagreements=ndis,
